@@ -28,9 +28,9 @@ package main
 //@ define gwHandler(f) = fnIs(f, "protocol.(*Gateway).HandleGatewayProtocol$bound")
 //@ func main
 //@   site (*github.com/gorilla/mux.Route).HandlerFunc requires[C05] bareOnlyOpenID: gwHandler(arg1) ==> #enabledOpenID && !#enabledKerberos && !#enabledBasic && !#enabledNtlm
-//@   site (*github.com/gorilla/mux.Route).HandlerFunc requires[C05] guarded: !gwHandler(arg1) ==> (#routeAuthz == "" && fnIs(#routeMatcher, "web.NoAuthz") && fnIs(arg1, "web.(*AuthMux).SetAuthenticate$bound")) || (#routeAuthz == "Basic" && #enabledBasic && fnIs(arg1, "web.(*BasicAuthHandler).BasicAuth$1") && gwHandler(captured(arg1, "web.(*BasicAuthHandler).BasicAuth$1", http.HandlerFunc))) || ((#routeAuthz == "NTLM" || #routeAuthz == "Negotiate") && #enabledNtlm && fnIs(arg1, "web.(*NTLMAuthHandler).NTLMAuth$1") && gwHandler(captured(arg1, "web.(*NTLMAuthHandler).NTLMAuth$1", http.HandlerFunc)))
+//@   site (*github.com/gorilla/mux.Route).HandlerFunc requires[C05] guarded: !gwHandler(arg1) ==> (#routeAuthz == "" && fnIs(#routeMatcher, "web.NoAuthz") && fnIs(arg1, "web.(*AuthMux).SetAuthenticate$bound")) || (#routeAuthz == "^Basic " && #enabledBasic && fnIs(arg1, "web.(*BasicAuthHandler).BasicAuth$1") && gwHandler(captured(arg1, "web.(*BasicAuthHandler).BasicAuth$1", http.HandlerFunc))) || ((#routeAuthz == "^NTLM " || #routeAuthz == "^Negotiate ") && #enabledNtlm && fnIs(arg1, "web.(*NTLMAuthHandler).NTLMAuth$1") && gwHandler(captured(arg1, "web.(*NTLMAuthHandler).NTLMAuth$1", http.HandlerFunc)))
 //@   site github.com/bolkedebruin/gokrb5/v8/spnego.SPNEGOKRB5Authenticate requires[C05] transposed: typeIs(arg0, http.HandlerFunc) && fnIs(dyn(arg0, http.HandlerFunc), "web.TransposeSPNEGOContext$1")
-//@   site (*github.com/gorilla/mux.Route).Handler requires[C05] kerberos: #routeAuthz == "Negotiate" && #enabledKerberos && typeIs(arg1, http.HandlerFunc) && fnIs(dyn(arg1, http.HandlerFunc), "web.RecoverAuthentication$1") && captured(dyn(arg1, http.HandlerFunc), "web.RecoverAuthentication$1", http.Handler) == #spnegoWrapped
+//@   site (*github.com/gorilla/mux.Route).Handler requires[C05] kerberos: #routeAuthz == "^Negotiate " && #enabledKerberos && typeIs(arg1, http.HandlerFunc) && fnIs(dyn(arg1, http.HandlerFunc), "web.RecoverAuthentication$1") && captured(dyn(arg1, http.HandlerFunc), "web.RecoverAuthentication$1", http.Handler) == #spnegoWrapped
 // the SPNEGO middleware panics on hostile tickets: it is only registered behind the recovering wrapper
 //@   site (*github.com/gorilla/mux.Route).Handler requires[C10] recovering: fnIs(dyn(arg1, http.HandlerFunc), "web.RecoverAuthentication$1")
 
